@@ -49,8 +49,11 @@ def gen_history(rng, maxlen=12, prop="C16", restarts=0):
             c.append(rng.choice(["a9", "n3"]))
         return rng.choice(c)
 
-    if rng.random() < 0.08:
+    r0 = rng.random()
+    if r0 < 0.08:
         return gen_drop_scenario(rng, maxlen)
+    if r0 < 0.14:
+        return gen_readd_scenario(rng, maxlen)
     w = {"A": 24, "P": 22, "L": 16, "F": 9, "K": 6, "T": 6, "D": 8, "C": 3, "W": 2, "I": 1, "S": 1, "X": 2, "U": 2, "Y": 1}
     if prop == "C17":
         w.update({"W": 7, "X": 5, "F": 12, "K": 8, "T": 8, "S": 2, "U": 5})
@@ -112,6 +115,46 @@ def gen_history(rng, maxlen=12, prop="C16", restarts=0):
             ops.append("G")
     for _ in range(restarts):
         ops.insert(rng.randint(0, len(ops)), "R")
+    return ops
+
+
+def gen_readd_scenario(rng, maxlen=12):
+    """kill + re-add of a client id while the killed object is still referenced: by a worker's running_jobs, by a blocked
+    puller's mailbox or by a heap; then disconnects / pulls / a second kill + re-add.  (jobs.py push: an id whose job was
+    killed may be added again = a NEW object with a new serial; everything that still holds the old object must leave
+    the new one alone, and (priority, serial) order must use the new serial.)"""
+    name = rng.choice([0, 1])
+    jid = "n%d" % name
+    ch = rng.choice([0, 1])
+    w1, w2, w3 = rng.sample([1, 2, 3, 4], 3)
+    ops = []
+    if rng.random() < 0.4:
+        ops.append("A %d %d - -" % (ch, rng.choice([0, 1])))                       # an older job on the same channel
+    first = rng.random()
+    if first < 0.5:
+        ops += ["A %d %d %d %s" % (ch, rng.choice([0, 1]), name, rng.choice(["-", "5"])), "P %d %s" % (w1, rng.choice(["-", str(ch)]))]
+    else:
+        ops += ["P %d %s" % (w1, rng.choice(["-", str(ch)])), "A %d %d %d -" % (ch, rng.choice([0, 1]), name)]
+        if rng.random() < 0.6:
+            ops.append("L")
+    ops.append("K 7 %s" % jid)
+    ops.append("A %d %d %d %s" % (rng.choice([ch, ch, 1 - ch]), rng.choice([0, 1]), name, rng.choice(["-", "-", "5"])))
+    tail = []
+    if rng.random() < 0.5:
+        tail.append("P %d %s" % (w2, rng.choice(["-", str(ch)])))                  # another worker takes the fresh job
+    if rng.random() < 0.4:
+        tail.append("A %d %d - -" % (ch, rng.choice([0, 1])))
+    tail.append("D %d" % w1)
+    tail.append("L")
+    tail += ["P %d -" % w3, "P %d -" % rng.choice([5, 6])]
+    if rng.random() < 0.3:
+        tail += ["K 7 %s" % jid, "A %d 0 %d -" % (ch, name), "P 8 -"]
+    ops += tail
+    noise = ["L", "T 6", "X", "I %s" % jid, "F %d %s 7 -" % (w2, jid), "F %d %s 7 -" % (w1, jid), "D %d" % w2, "W 9 %s" % jid, "C 1", "G", "U 4000"]
+    for _ in range(rng.choice([0, 0, 1, 2])):
+        if len(ops) >= maxlen + 2:
+            break
+        ops.insert(rng.randint(2, len(ops)), rng.choice(noise))
     return ops
 
 
